@@ -1,2 +1,172 @@
-import Tftp.Model.Sender
-import Tftp.Model.Receiver
+import Tftp.Lemmas.Sender
+import Tftp.Lemmas.Receiver
+/-!
+# C18 — Window buffer contract: ordered, bounded, loss-free chunk queue over a file
+-/
+namespace Tftp
+
+/-- read side: the window holds pieces `removed .. removed+len` of the file `f`, the file cursor stands
+right behind them, and once the short piece has been handed out nothing follows it -/
+structure WRead (f : Bytes) (removed : Nat) (w : Window) : Prop where
+  elems_eq : ∀ i, i < w.elems.length → w.elems[i]? = some (slice w.chunk f (removed + i))
+  cur : w.eof = false → w.file.rest = f.drop ((removed + w.elems.length) * w.chunk)
+          ∧ (removed + w.elems.length) * w.chunk ≤ f.length
+  fin : w.eof = true → removed + w.elems.length = f.length / w.chunk + 1
+  len_le : w.elems.length ≤ w.size
+  can_read : w.file.canRead = true
+
+/-- a window is the window of a (ghost) sender state, so the sender lemmas apply -/
+theorem WRead.toSInv {f : Bytes} {r : Nat} {w : Window} (h : WRead f r w) :
+    SInv { b := w.chunk, w := w.size, timeout := 0, rep := 1 } f
+      { bn := (r + 1) % 65536, win := w, filled := !w.eof, retry := 0, since := 0, status := .running, base := r + 1 } :=
+  ⟨by simp, rfl, by simpa using h.elems_eq, by simpa using h.cur, by simpa using h.fin, h.len_le, rfl, rfl,
+    h.can_read, rfl, fun _ => by show 0 < Gen.maxRetries; decide⟩
+
+theorem c18_new_read (size chunk : Nat) (f : Bytes) : WRead f 0 (Window.new size chunk (FileSt.openRead f)) := by
+  refine ⟨?_, ?_, ?_, by simp [Window.new], rfl⟩
+  · intro i hi; simp [Window.new] at hi
+  · intro _; simp [Window.new, FileSt.openRead]
+  · intro h; simp [Window.new] at h
+
+/-- **fill**: succeeds on a readable file, keeps the pieces already buffered, appends the next pieces of
+the file in order without gap or repetition (piece `i` of the queue is bytes
+`[(removed+i)·chunk, (removed+i+1)·chunk)`), never exceeds `size`, and reports `false` exactly when the
+short (final) piece has been handed out -/
+theorem c18_fill_in_order (f : Bytes) (r : Nat) (w : Window) (h : WRead f r w) (hc : 0 < w.chunk)
+    (hs : w.size < 65536) :
+    ∃ w' fl, w.fill = (w', .ok fl) ∧ WRead f r w' ∧ fl = !w'.eof ∧
+      w'.size = w.size ∧ w'.chunk = w.chunk ∧ w.elems.length ≤ w'.elems.length ∧
+      (∀ i, i < w.elems.length → w'.elems[i]? = w.elems[i]?) := by
+  obtain ⟨w', fl, hfill, hinv, hgrow⟩ := fill_ok (c := { b := w.chunk, w := w.size, timeout := 0, rep := 1 }) hc hs h.toSInv
+  simp only at hfill hgrow
+  have hsz : w'.size = w.size := hinv.size_eq
+  have hch : w'.chunk = w.chunk := hinv.chunk_eq
+  refine ⟨w', fl, hfill, ⟨?_, ?_, ?_, ?_, hinv.can_read⟩, by simpa using hinv.filled_eq, hsz, hch, hgrow, ?_⟩
+  · have := hinv.elems_eq; simpa [hch] using this
+  · have := hinv.cur; simpa [hch] using this
+  · have := hinv.fin; simpa [hch] using this
+  · have := hinv.len_le; simpa [hsz] using this
+  · intro i hi
+    have h1 := hinv.elems_eq i (by simp only; omega)
+    have h2 := h.elems_eq i hi
+    simp only at h1
+    rw [h1, h2]
+    simp
+
+/-- after the short piece, `fill` hands out nothing more (this is what failed before the repair) -/
+theorem c18_no_piece_after_short (w : Window) (h : w.eof = true) : w.fill = (w, .ok false) := by
+  unfold Window.fill; simp [h]
+
+/-- **remove(k)** discards exactly the `k` oldest pieces; it fails, changing nothing, iff `k > len` -/
+theorem c18_remove (w : Window) (k : Nat) (hs : w.elems.length < 65536) :
+    (k ≤ w.elems.length → w.remove k = ({ w with elems := w.elems.drop k }, .ok ())) ∧
+    (w.elems.length < k → w.remove k = (w, .err)) := by
+  have hl : w.len = w.elems.length := by unfold Window.len; exact Nat.mod_eq_of_lt hs
+  unfold Window.remove
+  rw [hl]
+  constructor
+  · intro h; have : ¬ k > w.elems.length := by omega
+    simp [this]
+  · intro h; simp [h]
+
+theorem c18_remove_keeps_order (f : Bytes) (r : Nat) (w : Window) (h : WRead f r w) (k : Nat)
+    (hk : k ≤ w.elems.length) : WRead f (r + k) { w with elems := w.elems.drop k } := by
+  refine ⟨?_, ?_, ?_, ?_, h.can_read⟩
+  · intro i hi
+    simp at hi ⊢
+    have := h.elems_eq (k + i) (by omega)
+    rw [this]; congr 2; omega
+  · intro he
+    have ⟨a, b⟩ := h.cur he
+    simp only [List.length_drop]
+    have : r + k + (w.elems.length - k) = r + w.elems.length := by omega
+    rw [this]; exact ⟨a, b⟩
+  · intro he
+    have := h.fin he
+    simp only [List.length_drop]
+    omega
+  · have := h.len_le; simp; omega
+
+/-- **add** fails, changing nothing, iff the buffer is full; otherwise the piece goes to the back -/
+theorem c18_add (w : Window) (d : Bytes) (hs : w.elems.length < 65536) :
+    (w.elems.length = w.size → w.add d = (w, .err)) ∧
+    (w.elems.length ≠ w.size → w.add d = ({ w with elems := w.elems ++ [d] }, .ok ())) := by
+  have hl : w.len = w.elems.length := by unfold Window.len; exact Nat.mod_eq_of_lt hs
+  unfold Window.add
+  rw [hl]
+  constructor
+  · intro h; simp [h]
+  · intro h; simp [h]
+
+/-- **bounded**: no operation makes the buffer hold more than `size` pieces -/
+theorem c18_bounded_add (w : Window) (d : Bytes) (hs : w.size < 65536) (h : w.elems.length ≤ w.size) :
+    (w.add d).1.elems.length ≤ (w.add d).1.size := by
+  have hl : w.len = w.elems.length := by unfold Window.len; exact Nat.mod_eq_of_lt (by omega)
+  unfold Window.add
+  rw [hl]
+  split
+  · exact h
+  · simp; omega
+
+/-- **empty** on a writable file appends all buffered pieces to the file in order and clears the buffer -/
+theorem c18_empty (w : Window) (h : w.file.canWrite = true) :
+    ∃ w', w.empty = (w', .ok ()) ∧ w'.elems = [] ∧ w'.file.content = w.file.content ++ w.elems.flatten := by
+  unfold Window.empty
+  simp only [h, Bool.not_true, Bool.false_and, Bool.false_eq_true, ↓reduceIte]
+  exact ⟨_, rfl, rfl, (foldl_write_content w.elems w.file).1⟩
+
+/-- on a read-only handle `empty` fails and clears nothing as soon as a non-empty piece is buffered -/
+theorem c18_empty_readonly (w : Window) (h : w.file.canWrite = false) (hne : ∃ d ∈ w.elems, d ≠ []) :
+    w.empty = (w, .err) := by
+  unfold Window.empty
+  obtain ⟨d, hd, hdn⟩ := hne
+  have : w.elems.any (fun d => !d.isEmpty) = true := by
+    rw [List.any_eq_true]
+    exact ⟨d, hd, by simpa using hdn⟩
+  simp [h, this]
+
+/-! operation sequences on the read side -/
+
+inductive ROp where
+  | fill
+  | remove (k : Nat)
+deriving Repr
+
+def ROp.apply (w : Window) : ROp → Window
+  | .fill => w.fill.1
+  | .remove k => (w.remove k).1
+
+/-- **every sequence of fill/remove operations** on a window over a readable file keeps the queue an
+in-order, gap-free, repetition-free run of the file's pieces, bounded by `size` -/
+theorem c18_read_sequences (size chunk : Nat) (hc : 0 < chunk) (hs : size < 65536) (f : Bytes) (ops : List ROp) :
+    ∃ r, WRead f r (ops.foldl ROp.apply (Window.new size chunk (FileSt.openRead f))) ∧
+      (ops.foldl ROp.apply (Window.new size chunk (FileSt.openRead f))).size = size ∧
+      (ops.foldl ROp.apply (Window.new size chunk (FileSt.openRead f))).chunk = chunk := by
+  have key : ∀ (ops : List ROp) (w : Window) (r : Nat), WRead f r w → w.size = size → w.chunk = chunk →
+      ∃ r', WRead f r' (ops.foldl ROp.apply w) ∧ (ops.foldl ROp.apply w).size = size ∧
+        (ops.foldl ROp.apply w).chunk = chunk := by
+    intro ops
+    induction ops with
+    | nil => intro w r h h1 h2; exact ⟨r, h, h1, h2⟩
+    | cons o os ih =>
+      intro w r h h1 h2
+      simp only [List.foldl_cons]
+      cases o with
+      | fill =>
+        obtain ⟨w', fl, hf, hw', _, hsz, hch, _⟩ := c18_fill_in_order f r w h (by omega) (by omega)
+        simp only [ROp.apply, hf]
+        exact ih w' r hw' (by omega) (by omega)
+      | remove k =>
+        have hl : w.elems.length < 65536 := by have := h.len_le; omega
+        by_cases hk : k ≤ w.elems.length
+        · simp only [ROp.apply, (c18_remove w k hl).1 hk]
+          exact ih _ (r + k) (c18_remove_keeps_order f r w h k hk) h1 h2
+        · simp only [ROp.apply, (c18_remove w k hl).2 (by omega)]
+          exact ih w r h h1 h2
+  exact key ops _ 0 (c18_new_read size chunk f) rfl rfl
+
+/-! non-vacuity: the unit test's sequence -/
+example : ((Window.new 2 5 (FileSt.openRead [72, 101, 108, 108, 111, 44, 32, 119, 111, 114, 108, 100, 33])).fill.1.remove 1).1.fill.1.elems =
+    [[44, 32, 119, 111, 114], [108, 100, 33]] := by decide
+
+end Tftp
